@@ -540,6 +540,7 @@ def run_classes(job):
         k = kernel_cls(dim=dim)
         ae = AccelerationEval(pas, groups, k)
         SPHCompiler(ae, None).compile()
+        ae.c02_eqs = [g.equations[0] for g in groups]
         return ae, pas, sel, props, k
 
     def build_or_split(us, dim):
@@ -600,6 +601,20 @@ def run_classes(job):
         nn2 = LinkedListNNPS(dim=dim, particles=pas_c,
                              radius_scale=k.radius_scale)
         ae.set_nnps(nn2)
+        # one compute() of a freshly constructed equation: instance
+        # attributes a previous run changed (counters, flags) are restored
+        # in the compiled object and in the Python object behind py_* hooks
+        fresh_eq = instantiate(u.cls, dim)
+        peq = ae.c02_eqs[i]
+        ceq = getattr(ae.c_acceleration_eval, peq.var_name)
+        for nm, val in fresh_eq.__dict__.items():
+            if nm in ('var_name', 'name', 'dest', 'sources', 'no_source'):
+                continue
+            setattr(peq, nm, val)
+            try:
+                setattr(ceq, nm, val)
+            except (AttributeError, TypeError):
+                pass
         sel[0] = i
         try:
             ae.compute(0.25, 0.125)
